@@ -172,7 +172,7 @@ func (h *H) progCases() {
 		for _, ri := range []int{0, 16384}[:e.Pick(1, 2)] {
 			body, _ := jpegProgScript(dim, dim, 1, ri, script)
 			c := h.one("DCTDecode", parm{Kind: "null"}, body, fmt.Sprintf("progressive jpeg, %d scans: %s", n, name))
-			c.Tight = true
+			c.Own = true
 			h.chainCase(c)
 		}
 	}
@@ -184,7 +184,7 @@ func (h *H) progCases() {
 		}
 		body, _ := jpegProgScript(1600, 1600, 3, 0, script)
 		c := h.one("DCTDecode", parm{Kind: "null"}, body, "progressive jpeg, refinement scans over three components")
-		c.Tight = true
+		c.Own = true
 		h.chainCase(c)
 	}
 	// JBIG2: more pixel work than workLimit(rawLen) allows must be refused, not done
